@@ -187,6 +187,34 @@ class Oracle:
         return None
 
 
+OPNAMES = ["Equals", "StartsWith", "EndsWith", "Contains"]
+
+
+def describe(call, keys, pats):
+    """human-readable form of a recorded call"""
+    def kstr(i):
+        g, n = keys[int(i)]
+        return "(group %r, name %r)" % (g.decode("utf-8", "replace"), n.decode("utf-8", "replace"))
+
+    def mstr(m):
+        if m[0] == "T":
+            return "JobPaused()" if m[1] == "1" else "JobActive()"
+        o, p_ = m[1:].split(".")
+        return "Job%s%s(%r)" % ("Name" if m[0] == "N" else "Group", OPNAMES[int(o)], pats[int(p_)].decode("utf-8", "replace"))
+    t = call.split(" ")
+    k = t[0][0]
+    if k == "P":
+        return "Push(entry #%s: key %s, priority %s, Suspended=%s, Replace=%s)%s" % (
+            t[5], kstr(t[1]), t[2], t[3] == "1", t[4] == "1",
+            " via ScheduleJob on a never-started scheduler" if t[0][1:] == "s" else " minted with VerifNewScheduledJob")
+    if k in "GR":
+        return "%s(key %s)" % ("Get" if k == "G" else "Remove", kstr(t[1]))
+    if k in "LJ":
+        ms = [] if t[1] == "-" else t[1].split(",")
+        return "%s(%s)" % ("ScheduledJobs" if k == "L" else "GetJobKeys", ", ".join(mstr(m) for m in ms))
+    return {"O": "Pop()", "H": "Head()", "Z": "Size()", "C": "Clear()", "A": "ScheduledJobs(nil)"}[k]
+
+
 def new_stats():
     return dict(calls=collections.Counter(), push=collections.Counter(), remove_position=collections.Counter(),
                 matcher_queries=collections.Counter(), matcher_lists=collections.Counter(), min_ties=0, empty_reads=0,
@@ -221,7 +249,8 @@ def oracle_file(path, stats, source):
             idx, why = bad
             # the replayable case: the calls up to and including the failing one (results dropped)
             calls = [c for c, _ in items[:idx] if c != "A"] + [items[idx][0]]
-            failures.append({"case": {"sequence": sid, "calls": calls, "from": source}, "failing_call": items[idx][0],
+            failures.append({"case": {"sequence": sid, "calls": calls, "from": source},
+                             "calls_decoded": [describe(c, keys, pats) for c in calls], "failing_call": items[idx][0],
                              "implementation_returned": items[idx][1], "why": [why],
                              "how": "queueh: the calls are made on quartz.NewJobQueue() in this order; results compared with a key->entry map"})
     return failures
@@ -242,6 +271,83 @@ def model_file(drv, path, source):
     return mism, int(m.group(1)), int(m.group(2))
 
 
+def coq_sample(path, max_seqs, max_line=20000):
+    """Evaluate the model inside Coq (vm_compute) on a sample of the recorded sequences: checks the extracted
+    OCaml model's verdicts against Coq's own evaluation for that sample. Returns (bad sequence ids | None, n, log)."""
+    keys, pats, seqs = parse_file(path)
+    seqs = [(sid, body) for sid, body in seqs if len(body) < max_line][:max_seqs]
+
+    def bl(b):
+        return "(s_of [%s]%%nat)" % "; ".join(str(x) for x in b)
+
+    def mt(m):
+        if m[0] == "T":
+            return "(MStatus %s)" % ("true" if m[1] == "1" else "false")
+        o, p_ = m[1:].split(".")
+        return "(%s %s (pt %s))" % ("MName" if m[0] == "N" else "MGroup", "String" + OPNAMES[int(o)], p_)
+    errs = {"Eempty": "ErrQueueEmpty", "Enotfound": "ErrJobNotFound", "Eexists": "ErrJobAlreadyExists", "Eother": "ErrOther"}
+    rows = []
+    for n, (sid, body) in enumerate(seqs):
+        minted, ops, exp = {}, [], []
+        ok = True
+        for item in body.split(" ; "):
+            call, res = item.strip().split(" > ")
+            t = call.split(" ")
+            k = t[0][0]
+            if k == "J":
+                continue
+            if k == "P":
+                minted[t[5]] = "(E %s (%s) %s %s %s)" % (t[1], t[2], "true" if t[3] == "1" else "false", "true" if t[4] == "1" else "false", t[5])
+                ops.append("OPush " + minted[t[5]])
+            elif k in "GR":
+                ops.append("%s (ky %s)" % ("OGet" if k == "G" else "ORemove", t[1]))
+            elif k in "AL":
+                ops.append("OScheduled [%s]" % ("" if k == "A" else "; ".join(mt(m) for m in t[1].split(","))))
+            else:
+                ops.append({"O": "OPop", "H": "OHead", "Z": "OSize", "C": "OClear"}[k])
+            try:
+                if res == "ok":
+                    exp.append("ROk")
+                elif res in errs:
+                    exp.append("RErr " + errs[res])
+                elif res.startswith("#"):
+                    exp.append("REntry " + minted[res[1:]])
+                elif res.startswith("="):
+                    exp.append("RSize %s" % res[1:])
+                elif res.startswith("["):
+                    exp.append("RList [%s]" % "; ".join(minted[x] for x in res[1:-1].split(",") if x))
+                else:
+                    ok = False
+            except KeyError:
+                ok = False
+        if ok:
+            rows.append("(%d%%nat, ([%s], [%s]))" % (n, "; ".join(ops), "; ".join(exp)))
+    v = """From Coq Require Import ZArith String Ascii List Bool.
+Require Import QzQueue.Gen.Params QzQueue.Entry QzQueue.Matcher QzQueue.HeapModel.
+Import ListNotations.
+Open Scope Z_scope.
+Definition s_of (l : list nat) : string := fold_right (fun n s => String (ascii_of_nat n) s) EmptyString l.
+Definition keytab : list key := [%s].
+Definition pattab : list string := [%s].
+Definition ky (n : nat) : key := nth n keytab (EmptyString, EmptyString).
+Definition pt (n : nat) : string := nth n pattab EmptyString.
+Definition E (k : nat) (p : Z) (s r : bool) (id : Z) : entry := mkEntry (ky k) p s r id.
+Definition cases : list (nat * (list op * list result)) := [%s].
+Definition MISMATCH := Eval vm_compute in
+  map fst (filter (fun c => negb (list_eqb result_eqb (snd (q_run [] (fst (snd c)))) (snd (snd c)))) cases).
+Print MISMATCH.
+""" % ("; ".join("(%s, %s)" % (bl(g), bl(nm)) for g, nm in keys), "; ".join(bl(x) for x in pats), ";\n ".join(rows))
+    rc, out = vlib.coq_eval(PROJ, "c11_sample", v, timeout=900)
+    if rc != 0:
+        return None, len(rows), out
+    m = re.search(r"MISMATCH\s*=\s*(\[[^\]]*\])", out.replace("\n", " "))
+    if not m:
+        return None, len(rows), out
+    body = m.group(1).strip("[]").strip()
+    idx = [int(x.replace("%nat", "").strip()) for x in body.split(";") if x.strip()] if body else []
+    return [seqs[i][0] for i in idx], len(rows), out
+
+
 def harness_files(binp, tier, seed, tag=""):
     """Run the sequential harness modes; returns [(source description, path)]."""
     os.makedirs(CASEDIR, exist_ok=True)
@@ -250,7 +356,7 @@ def harness_files(binp, tier, seed, tag=""):
         plan = [("random", [str(seed), "1500", "200"]), ("matrix", []), ("exhaust", ["3", "3"]), ("exhaust", ["4", "2"])]
     elif tier == "thorough":
         plan = [("random", [str(seed), "12000", "200"]), ("random", [str(seed + 1), "2000", "1000"]), ("matrix", []),
-                ("exhaust", ["4", "3"]), ("exhaust", ["5", "2"])]
+                ("exhaust", ["4", "3"]), ("exhaust", ["3", "4"])]
     elif tier == "search":
         plan = [("random", [str(seed + 7), "6000", "200"]), ("matrix", []), ("exhaust", ["3", "3"])]
     out = []
@@ -308,6 +414,23 @@ def run(ctx):
             compared_seqs += ns
             compared_calls += nc
 
+    # a sample re-evaluated inside Coq (takes the OCaml extraction out of the trusted base for that sample)
+    in_coq = {"sequences": 0, "disagreeing_with_implementation": None}
+    if res.get("ok") or os.path.exists(os.path.join(vlib.coq_dir(PROJ), "theories", "HeapModel.vo")):
+        nsample = 40 if ctx.tier == "quick" else 400
+        bad_ids, n_in_coq, clog = coq_sample(files[0][1], nsample)
+        bad2, n2, clog2 = coq_sample(files[1][1], 2, max_line=10 ** 7) if ctx.tier != "quick" else ([], 0, "")
+        in_coq["sequences"] = n_in_coq + n2
+        if bad_ids is None or bad2 is None:
+            mismatches.append({"error": "in-Coq evaluation of the sample failed", "detail": (clog if bad_ids is None else clog2)[-1500:]})
+        else:
+            in_coq["disagreeing_with_implementation"] = len(bad_ids) + len(bad2)
+            ocaml_bad = {m_["sequence"] for m_ in mismatches if "sequence" in m_}
+            for sid in bad_ids + bad2:
+                if sid not in ocaml_bad:
+                    mismatches.append({"sequence": sid, "what": "Coq's own evaluation (vm_compute) of the model differs from the implementation "
+                                                               "on this sequence although the extracted OCaml model agreed"})
+
     # thread safety: 16 concurrent callers under the race detector
     binr, out = vlib.go_build("queueh", race=True)
     if binr is None:
@@ -353,6 +476,7 @@ def run(ctx):
         "model_mismatches": n_mis,
         "concrete_model_agreement": {"sequences_compared": compared_seqs, "calls_compared": compared_calls,
                                      "mismatching_sequences": len([m for m in mismatches if "sequence" in m])},
+        "sample_evaluated_inside_coq": in_coq,
         "sources": [s for s, _ in files],
         "distribution": {
             "calls_by_kind": {{"P": "Push", "O": "Pop", "H": "Head", "G": "Get", "R": "Remove", "Z": "Size", "C": "Clear",
@@ -373,6 +497,12 @@ def run(ctx):
                            "that the Go runtime's interleavings behave like a sequence of atomic calls is observed (race detector, conservation "
                            "and per-key sequential consistency under 16 callers), not proved",
     })
+    if not ctx.violations:
+        for _, path in files:      # recorded sequences are only kept when something has to be looked at
+            try:
+                os.remove(path)
+            except OSError:
+                pass
     vlib.write_evidence(ctx, cov, assumptions=[
         "container/heap is the Go 1.23 source modelled in HeapModel.v (up, down, Push, Pop, Remove); slices behave as lists; lengths fit in int",
         "sync.Mutex gives mutual exclusion, so a jobQueue method whose body is bracketed by Lock/defer Unlock is one atomic step",
